@@ -18,6 +18,8 @@ Assumptions of the family (stated, not checked): no NaN, no -0.0 (the float32 pa
 columns in _encode_groups distinguishes 0.0 from -0.0; DESIGN lists this as a precondition), integer
 entries of magnitude <= 2**53, `*_per_prime_factor` columns hold integers >= 1, dtypes float32 / float64 /
 int64 / int32.
+
+Sub-family `_bigprime` (prime-factor goals with large exponents / large primes / many primes): see `_bound`.
 """
 import itertools, json, math, os, random, subprocess, sys, tempfile, warnings
 import numpy as np
@@ -863,6 +865,15 @@ def _bound(tier):
             "prime-factor goals: d=1, n<=3 over {1,2,3,4,6,12}, and d=2, n=2 over {1,2,4,6} with the second column of any of the 5 goals. "
             + ("Every core input in float32, float64 and int64 (infinite ones: the two float types) through fast_pareto_mask and in float32 through makepareto_numpy. " if t else
                "Every core input through fast_pareto_mask in one dtype (cycling float32/float64/int64/int32), every third also through makepareto_numpy. ") +
+            "Large-exponent sub-family of the prime-factor goals: for each of the 109 powers p**k < 2**31, p in {2,3,5,7,11,13,17,19,23} (up to 2**30, 3**19, "
+            "5**13, 7**11, 11**8, 13**8, 17**7, 19**7, 23**6), d=1 and " + (
+                "every ordered pair and triple over {p**(k-1), p**k, p**(k+1), p**(k-1)*q, p**k*q**m, 1}" if t else
+                "every ordered pair over {p**(k-1), p**k, p**(k+1), p**(k-1)*q}") + " (q the next prime of the list" + (", q**m < 2**31 the largest "
+            "power keeping the product <= 2**53" if t else "") + "), plus 12 fixed matrices per power and goal (n <= 6, d <= 2: the three neighbouring powers against a min / max / diff / second "
+            "prime-factor column, products of two prime powers, columns whose maximum is exactly p**k while a smaller entry has another prime, constant "
+            "columns at p**k); primorials 2 .. 2*3*5*7*11*13*17*19*23 and their co-divisors (n <= 13, every ordered pair over 10 values with 0..9 distinct "
+            f"primes), the value 1, constant columns; {6000 if t else 400} seeded random matrices (n <= 17, d <= 3) over such values; entries <= 2**53 "
+            "(int32: < 2**31; float32: only values it holds exactly), dtype cycling int64/float64/int32/float32, both entry points. "
             f"Random part: n <= {400 if t else 300} generated rows plus up to a quarter inserted duplicates, d <= 8 columns, dtypes float32/float64/int64/int32, any of the 5 goals per column. "
             "No NaN, no -0.0, |integers| <= 2**53, prime-factor columns hold integers >= 1")
 
@@ -887,7 +898,11 @@ def _bounded(p):
         "resolution, integers around 2**24 and 2**31, constant columns, 0-3 diff columns (float32 pair-packed path), anti-chains of up to several "
         "hundred non-dominated rows (several 16-row window blocks), dominated rows placed before their dominators, inserted duplicate rows, sorted and "
         "shuffled orders. "
-        f"This run: {st['guidance']} guidance cases, {st['core']} core inputs, {st['random']} random inputs (largest {st['rows_max']} rows). "
+        "Large-exponent sub-family (prime-factor goals): values p**k with p <= 23 and p**k < 2**31 next to p**(k-1), p**(k+1) and products of two "
+        "such powers, primorials with up to 9 distinct primes, the value 1 and constant columns, through fast_pareto_mask (fast_pareto.prime_factor_counts) "
+        "and makepareto_numpy (pareto.prime_factor_counts); the required exponents come from integer trial division in the oracle. "
+        f"This run: {st['guidance']} guidance cases, {st['core']} core inputs, {st['bigprime']} large-exponent inputs, {st['random']} random inputs "
+        f"(largest {st['rows_max']} rows). "
         "For inputs inside an OPEN known-finding class listed in the payload the comparison is replaced by the weaker one the finding leaves: "
         "F3 -> dominance on the float32-rounded min/max values; F1 -> only non-dominated rows holding +inf in a group with two varying columns may be "
         "missing; F2 -> only dominated rows all of whose dominators tie with them in float32 row sum may be extra; C11-empty-numpy -> IndexError on 0 rows; "
